@@ -360,7 +360,7 @@ func (w *aWorld) genPatches(failing bool, create bool) []workload.PatchDesc {
 
 	if failing {
 		pos := T.Draw(len(out)+1, "patch.failpos")
-		out = append(out[:pos:pos], append([]workload.PatchDesc{{Kind: workload.FailTest}}, out[pos:]...)...)
+		out = append(out[:pos:pos], append([]workload.PatchDesc{{Kind: workload.FailTest, Mark: w.nextMark()}}, out[pos:]...)...)
 	}
 
 	return out
